@@ -42,6 +42,9 @@ TABLE: List[Entry] = [
     ("R-OFFSET-ROUNDTRIP", "increase_min", None, {"C03", "C13", "C04"}),
     ("R-OFFSET-ROUNDTRIP", "get_solution", None, {"C01", "C03", "C13", "C02"}),
     # ---- search loop -------------------------------------------------------------------------------------
+    # the worker side of the enumeration: every solution of a part is delivered once (C11 / C12: the union reaches the caller)
+    ("R-RESUME", "solve_and_queue", None, {"C02", "C11", "C12"}),
+    ("R-RESUME", None, None, {"C02"}),
     ("R-SOLUTION", None, "none-return", {"C02", "C03"}),  # giving up early loses solutions; what is reported stays valid
     ("R-SOLUTION", None, "backtrack-call", {"C02", "C03"}),
     ("R-HANDOVER", None, "announce-row", {"C01", "C02", "C07", "C08", "C09"}),
@@ -49,7 +52,8 @@ TABLE: List[Entry] = [
     # ---- multiprocessing parent ----------------------------------------------------------------------------
     ("R-STATS-SLOT", None, None, {"C11", "C17"}),
     ("R-MARKER", None, "solution-forwarded", {"C01", "C02", "C11", "C12"}),  # C12: the union of the parts' solutions reaches the caller
-    ("R-MARKER", None, "marker-recorded", {"C11", "C12"}),  # a healthy part reported dead: the union is never delivered
+    ("R-MARKER", None, "marker-recorded", {"C11", "C12"}),
+    ("R-MARKER", None, "spawn", {"C11", "C12"}),  # a part that is never started (or is taken for dead) is missing from the union  # a healthy part reported dead: the union is never delivered
     ("R-MARKER", None, "completion-flags-fresh", {"C11", "C18"}),
     ("R-MARKER", None, "marker-on-error-path", {"C11", "C19"}),
     ("R-MARKER", None, None, {"C11"}),
@@ -66,6 +70,7 @@ TABLE: List[Entry] = [
     # announcing the moved bounds is about what propagation sees (C02/C09, and through them C01/C08), not about termination
     ("R-BRANCH-EVENTS", None, None, {"C01", "C02", "C08", "C09"}),
     # strict shrink of every sub-range is the progress measure of the search tree
+    ("R-PARTITION", None, "no-push-path", {"C04"}),
     ("R-PARTITION", None, "store-level:dom_update", {"C02", "C09"}),  # where the replay record is written is not a progress matter
     ("R-PARTITION", None, None, {"C02", "C04", "C09"}),
     # ---- choice-point stack: C07 is only concerned with the enabled-flags half
@@ -89,7 +94,8 @@ TABLE: List[Entry] = [
     ("R-INIT-COHERENCE", None, "not-reassigned", {"C13", "C15"}),
     ("R-INIT-COHERENCE", None, "not-fresh", {"C13", "C15"}),
     ("R-INIT-COHERENCE", None, "accumulates", {"C13", "C15"}),
-    ("R-INIT-COHERENCE", None, "sort-guard-stale", {"C15"}),  # the order changes the schedule (statistics), not the solution set
+    ("R-INIT-COHERENCE", None, "sort-guard-stale", {"C15"}),
+    ("R-INIT-COHERENCE", None, "posting-order-list", {"C01", "C13"}),  # the order changes the schedule (statistics), not the solution set
     ("R-INIT-COHERENCE", None, "sort-", {"C13", "C15"}),
     ("R-INIT-COHERENCE", None, "missing", {"C13", "C15"}),
     ("R-INIT-COHERENCE", None, "triggers-shape", {"C13", "C15"}),  # a table accumulated with |= over uninitialised memory depends on the history of the process
